@@ -209,3 +209,88 @@ def _join(a: Env, b: Env) -> Env:
     for k, v in b.items():
         out[k] = out.get(k, frozenset()) | v
     return out
+
+
+class ReachDefs:
+    """Reaching definitions of the locals of one function: which assignments may be the one a use sees.
+
+    reaching(name, node) -> ids (id() of the defining statement) of the definitions of `name` that can reach the statement
+    containing `node`.  `x += v` and `x[k] = v` add to the definitions of x, plain assignment replaces them."""
+
+    def __init__(self, fn: ast.FunctionDef | ast.AsyncFunctionDef, cfg: CFG | None = None) -> None:
+        self.cfg = cfg or CFG(fn)
+        self.inn: dict[int, dict[str, frozenset[int]]] = {self.cfg.entry.id: {}}
+        out: dict[int, dict[str, frozenset[int]]] = {}
+        work = [self.cfg.entry.id]
+        guard = 0
+        while work and guard < 200000:
+            guard += 1
+            i = work.pop()
+            node = self.cfg.nodes[i]
+            o = self._transfer(node, self.inn.get(i, {}))
+            if i in out and out[i] == o:
+                continue
+            out[i] = o
+            for s, lab in node.succ:
+                src = o if lab != 'exc' else _join(self.inn.get(i, {}), o)
+                cur = self.inn.get(s)
+                new = dict(src) if cur is None else _join(cur, src)
+                if cur != new:
+                    self.inn[s] = new
+                    work.append(s)
+
+    @staticmethod
+    def _targets(tg: ast.AST) -> tuple[list[str], list[str]]:
+        strong, weak = [], []
+        if isinstance(tg, ast.Name):
+            strong.append(tg.id)
+        elif isinstance(tg, (ast.Tuple, ast.List)):
+            for e in tg.elts:
+                s, w = ReachDefs._targets(e)
+                strong += s
+                weak += w
+        elif isinstance(tg, ast.Starred):
+            return ReachDefs._targets(tg.value)
+        elif isinstance(tg, ast.Subscript):
+            r = _root(tg)
+            if r:
+                weak.append(r)
+        return strong, weak
+
+    def _transfer(self, node, env: dict[str, frozenset[int]]) -> dict[str, frozenset[int]]:  # noqa: ANN001
+        st = node.ast
+        if st is None:
+            return env
+        env = dict(env)
+        tgs: list[ast.AST] = []
+        weak_only = False
+        if node.kind == 'test':
+            if isinstance(st, (ast.For, ast.AsyncFor)):
+                tgs = [st.target]
+        elif isinstance(st, ast.Assign):
+            tgs = list(st.targets)
+        elif isinstance(st, ast.AnnAssign) and st.value is not None:
+            tgs = [st.target]
+        elif isinstance(st, ast.AugAssign):
+            tgs = [st.target]
+            weak_only = True
+        elif isinstance(st, (ast.With, ast.AsyncWith)):
+            tgs = [it.optional_vars for it in st.items if it.optional_vars is not None]
+        for tg in tgs:
+            strong, weak = self._targets(tg)
+            if weak_only:
+                weak, strong = weak + strong, []
+            for nm in strong:
+                env[nm] = frozenset({id(st)})
+            for nm in weak:
+                env[nm] = env.get(nm, frozenset()) | {id(st)}
+        return env
+
+    def reaching(self, name: str, node: ast.AST) -> frozenset[int] | None:
+        n = self.cfg.stmt_node_containing(node)
+        if n is None:
+            return None
+        env: dict[str, frozenset[int]] = {}
+        for c in self.cfg.nodes_of(n.ast) if n.ast is not None else [n]:
+            env = _join(env, self.inn.get(c.id, {}))
+        return env.get(name)
